@@ -12,6 +12,7 @@ cell by cell with what TLC printed.  Round trips (from_matrices(**arrays of the 
 planning results (value iteration on the original and on the rebuilt object, against the exact
 optimal values printed by TLC) are judged the same way.
 """
+import itertools
 import random
 import warnings
 from fractions import Fraction as F
@@ -197,6 +198,9 @@ def make_instance(rng, style):
         return m
 
 
+# label kinds of the harness plus "collide": state labels that are tuples built from other state / action labels
+# (singletons (s,), pairs (s, a), triples (s, a, s')), so that a state label can be mistaken for a multi-field key
+STATE_LABEL_KINDS = LABEL_KINDS + ["collide", "collide"]
 STYLES = ["clean"] * 6 + ["plan"] * 4 + ["const"] * 3 + ["absinit"] * 2 + ["ghost"] * 2 + ["zeros_out"] * 2
 
 
@@ -205,12 +209,14 @@ def make_cases(rng, n):
     for i in range(n):
         style = STYLES[i % len(STYLES)]
         m = make_instance(rng, style)
-        rep = {"labels": rng.choice(LABEL_KINDS), "alabels": rng.choice(LABEL_KINDS),
+        rep = {"labels": rng.choice(STATE_LABEL_KINDS), "alabels": rng.choice(LABEL_KINDS),
                "dist": rng.choice(["dict", "det", "uniform"]),
                "base": rng.choice(["subclass", "quick"]),
                "extra": rng.choice(["wrap", "wrap_obj", "quickmdp", "matrices"]),
                "explicit_actions": 1 if (m["explicit"] and rng.random() < 0.7) else 0,
                "seed": rng.randrange(1 << 30)}
+        if rep["labels"] == "collide":
+            rep["alabels"] = "int"          # the components of the colliding tuples are real state / action labels
         cases.append({"m": m, "rep": rep, "style": style})
     return cases
 
@@ -278,11 +284,36 @@ def crosscheck(i, m, rec, cuts):
 # --------------------------------------------------------------------------------------------
 # building msdm objects
 # --------------------------------------------------------------------------------------------
+def colliding_labels(N, K, rng):
+    """Int states 0..nb-1 plus tuples over them and the int actions 0..K-1: (s,), (s, a), (s, a, s').  Every
+    component of a tuple label is an element of the matching table domain (state, action, next state)."""
+    nb = 1 if N <= 2 else 2
+    base = list(range(nb))
+    pairs = [(x, a) for x in base for a in range(K)]
+    triples = [(x, a, t) for x in base for a in range(K) for t in base]
+    singles = [(x,) for x in base]
+    for pool in (pairs, triples, singles):
+        rng.shuffle(pool)
+    picked = []
+    for pool in (pairs, triples, singles):          # at least one of each shape when there is room
+        if len(picked) < N - nb:
+            picked.append(pool.pop())
+    rest = pairs + triples + singles
+    rng.shuffle(rest)
+    picked += rest[:N - nb - len(picked)]
+    labs = base + picked
+    rng.shuffle(labs)
+    return labs
+
+
 class Labels:
     def __init__(self, m, rep):
         rng = random.Random(rep["seed"])
-        self.s = make_labels(rep["labels"], m["N"], "s", rng)
         self.a = make_labels(rep["alabels"], m["K"], "a", rng)
+        if rep["labels"] == "collide":
+            self.s = colliding_labels(m["N"], m["K"], rng)
+        else:
+            self.s = make_labels(rep["labels"], m["N"], "s", rng)
         self._si = {l: i for i, l in enumerate(self.s)}
         self._ai = {l: i for i, l in enumerate(self.a)}
         self.rng = rng
@@ -506,25 +537,14 @@ def observe(mdp, L, m, *, tabular=True):
         except Exception as e:                            # noqa: BLE001
             o["err"][name] = _err(e)
         o["n"] += 1
-    # tables: every cell through the label interface must be the array cell
+    # tables: through the label interface every table must hold the array's numbers
     for tname, aname in TABLES.items():
         if aname not in raw:
             continue
         try:
             tb = getattr(mdp, tname)
-            bad = []
-            for si, s in enumerate(sl):
-                for ai, a in enumerate(al):
-                    if raw[aname].ndim == 3:
-                        for ti, t in enumerate(sl):
-                            v = tb[s][a][t]
-                            if not (float(v) == float(raw[aname][si, ai, ti])):
-                                bad.append([o["sl"][si], o["al"][ai], o["sl"][ti], float(v)])
-                    else:
-                        v = tb[s][a]
-                        if not (float(v) == float(raw[aname][si, ai])):
-                            bad.append([o["sl"][si], o["al"][ai], None, float(v)])
-            o[tname] = {"bad": bad[:5], "states": [L.sidx(x) for x in tb.state_list],
+            doms = [sl, al, sl] if raw[aname].ndim == 3 else [sl, al]
+            o[tname] = {"bad": table_bad(tb, raw[aname], doms), "states": [L.sidx(x) for x in tb.state_list],
                         "actions": [L.aidx(x) for x in tb.action_list]}
         except Exception as e:                            # noqa: BLE001
             o["err"][tname] = _err(e)
@@ -539,6 +559,55 @@ def observe(mdp, L, m, *, tabular=True):
         if all(k in raw for k in ARRAYS[:5]):
             o["err"]["as_matrices"] = _err(e)
     return o
+
+
+def table_bad(tb, arr, doms):
+    """Label lookups of a msdm Table against its own array `arr` (fields in the order of `doms`):
+      nested   tb[s][a][ns]   one field at a time
+      full     tb[s, a, ns]   one tuple of field values - unless that tuple is itself an element of the outermost
+                              domain: such a key always selects that element (its row)
+      row      tb[s]          the sub-table of the outermost element
+    Returns up to five mismatches as [mode, repr(key), got]."""
+    arr = np.asarray(arr)
+    outer = {lab: i for i, lab in enumerate(doms[0])}
+    bad = []
+
+    def same(v, ref):
+        try:
+            return np.array_equal(np.asarray(v, dtype=float), np.asarray(ref, dtype=float))
+        except Exception:                                 # noqa: BLE001
+            return False
+
+    def note(mode, key, v):
+        if len(bad) < 5:
+            bad.append([mode, repr(key), v if isinstance(v, str) else repr(np.asarray(v).tolist())[:80]])
+    def look(fn):
+        try:
+            return fn()
+        except BaseException as e:                        # noqa: BLE001 - msdm's DomainError is a BaseException
+            if isinstance(e, (KeyboardInterrupt, SystemExit)):
+                raise
+            return f"raised {type(e).__name__}: {e}"[:80]
+
+    def nested(key):
+        v = tb
+        for part in key:
+            v = v[part]
+        return v
+    for i, lab in enumerate(doms[0]):
+        v = look(lambda: tb[lab])
+        if not same(v, arr[i]):
+            note("row", lab, v)
+    for idx in itertools.product(*[range(len(d)) for d in doms]):
+        key = tuple(d[i] for d, i in zip(doms, idx))
+        v = look(lambda: nested(key))
+        if not same(v, arr[idx]):
+            note("nested", key, v)
+        v = look(lambda: tb[key])
+        ref = arr[outer[key]] if key in outer else arr[idx]
+        if not same(v, ref):
+            note("full", key, v)
+    return bad
 
 
 def roundtrip(mdp):
@@ -556,6 +625,12 @@ def plan(mdp, L, version):
         warnings.simplefilter("ignore")
         r = ValueIteration(max_iterations=5000, max_residual=VI_EPS, _version=version).plan_on(mdp)
     out = {"V": {}, "pol": {}, "init": float(r.initial_value)}
+    sl, al = list(mdp.state_list), list(mdp.action_list)
+    out["tables"] = {}
+    for tname, doms in (("state_value", [sl]), ("action_value", [sl, al])):
+        tb = getattr(r, tname, None)
+        if tb is not None and hasattr(tb, "table_index") and [list(d) for d in tb.table_index.field_domains] == doms:
+            out["tables"][tname] = table_bad(tb, np.asarray(tb), doms)
     for s in mdp.state_list:
         out["V"][str(L.sidx(s))] = float(r.state_value[s])
         out["pol"][str(L.sidx(s))] = {str(L.aidx(a)): float(p) for a, p in r.policy.action_dist(s).items() if p > 0}
@@ -849,7 +924,7 @@ class Judge:
                 self.fail(j(site, tname), "error", f"raised {o['err'][tname]}", name)
             elif tname in o:
                 if o[tname]["bad"]:
-                    self.fail(j(site, tname), "cell", f"table cells differ from the array: {o[tname]['bad']}", name)
+                    self.fail(j(site, tname), "cell", f"label lookups [mode, key, got] differ from the array: {o[tname]['bad']}", name)
                 if o[tname]["states"] != sl or o[tname]["actions"] != al:
                     self.fail(j(site, tname), "domains", "table domains differ from state_list / action_list", name)
         if "as_matrices" in o["err"]:
@@ -880,6 +955,10 @@ class Judge:
             if key not in o:
                 continue
             p = o[key]
+            for tname, bad in p.get("tables", {}).items():
+                if bad:
+                    self.fail(j(site, "plan"), "value-table-lookup",
+                              f"ValueIteration[{ver}].{tname}: label lookups differ from the table's own array: {bad}", name)
             for s, v in p["V"].items():
                 e = 0.0 if m["abs"][int(s)] else float(vstar[int(s)])
                 if abs(v - e) > bound + 1e-9 * max(1.0, abs(e)):
